@@ -1010,7 +1010,8 @@ def run_corrupt(ctx, histories, steps):
             f"check_integrity() returned {json.dumps(rec.get('integ'))} but the contents served are no commit point of the history"
             + ("" if rec.get("integ") != {"ok": False} else f" / second check {json.dumps(rec.get('integ2'))}"))
     sig = "corrupt:" + hashlib.sha256(json.dumps([script["cfg"], script["steps"], rec["alt"]], sort_keys=True).encode()).hexdigest()[:16]
-    payload = {"property": ctx.prop, "kind": "corrupt", "cfg": script["cfg"], "steps": script["steps"], "alt": rec["alt"], "what": what, "signature": sig}
+    payload = {"property": ctx.prop, "kind": "corrupt", "cfg": script["cfg"], "steps": script["steps"], "alt": rec["alt"], "what": what, "signature": sig,
+               "savepoint_epilogue": script.get("savepoint_epilogue", False)}
     raise Violation(ctx.prop, save_replay(ctx.prop, payload), what, sig)
 
 
